@@ -422,7 +422,11 @@ def scope_guard_constructors(P, f):
     io = f.impl_of or {}
     if io.get("trait") and io["trait"].endswith("ops::Drop") and f.npath.endswith("::drop"):
         head = type_head(io.get("self_ty", ""))
-        guard = True
+        adt = adt_of_type(P.F, head)
+        # public types and the value types the rules name (lists, pointers, wrappers) have destructors that are operations in
+        # their own right, whoever holds the value; only crate-private helper types can be scope guards
+        from engine.facts import KNOWN_TYPES
+        guard = adt is not None and adt.get("vis") != "pub" and (head not in KNOWN_TYPES or head == "utils::ResetMarkDropGuard")
         makers = set()        # functions whose return value is a freshly built X
         holders = {}          # fn id -> set of locals holding a fresh X
         for g in P.fns.values():
